@@ -102,8 +102,6 @@ Definition delete_guarded (e : ev) : bool :=
   | _ => true
   end.
 
-Fixpoint first_some {A} (f : A -> option string) (l : list A) : option string :=
-  match l with [] => None | a :: l' => match f a with Some s => Some s | None => first_some f l' end end.
 
 Definition C02_round (c : ccfg) (k : cache) (evs : list ev) : option string :=
   match k_parent k with
@@ -299,11 +297,11 @@ Definition C10_round (c : ccfg) (k : cache) (parent : json) (evs : list ev) : op
               if negb (is_write q) then None else
               match q_verb q with
               | VCreate =>
+                  (* the finalizer is on the parent as cached, or as an earlier read or write of this sync returned it *)
                   if has_finalize c && negb (has_finalizer parent fin) &&
-                     negb (existsb (fun e' => match is_api e' with
-                                              | Some q' => targets_parent c parent q' && verb_eqb (q_verb q') VUpdate &&
-                                                           accepted e' && has_finalizer (e_post e') fin
-                                              | None => false end) seen)
+                     negb (existsb (fun e' => match is_api e', e_ans e' with
+                                              | Some q', AObj o => targets_parent c parent q' && has_finalizer o fin
+                                              | _, _ => false end) seen)
                   then Some "child-created-before-finalizer" else None
               | _ => None
               end
